@@ -428,12 +428,13 @@ def fault_pipeline(work, rep, tier, seed, prop, groups=None):
         if upds:
             o2 = upds[-1]
             pre = [x for x in (seqfam.tofu_steps(db0_of(db), 2) if db == "s1" else []) if x["log"] == "l1"]
-            for call, dcall in (("WriteOps", "begin"), ("GetLatest", "query"), ("Set", "exec"), ("Set", "commit")):
-                bad = {"op": "update", "log": o2["log"], "req": o2["req"]}
+            bad = {"op": "update", "log": o2["log"], "req": o2["req"]}
+            for call in ("WriteOps", "GetLatest", "Set"):
                 runs_by[("inmem", "iface")].append({"id": "%s-outage-%s" % (scen, call), "steps": pre + [dict(bad, faults=[call])] * 100 + [bad] + TAIL})
                 runs_by[("sqlfault", "iface")].append({"id": "%s-outage-%s" % (scen, call), "steps": pre + [dict(bad, faults=[call])] * 100 + [bad] + TAIL})
+            for dcall in ("begin", "query", "exec", "commit"):
                 runs_by[("sqlfault", "driver")].append({"id": "%s-outage-d%s" % (scen, dcall), "steps": pre + [dict(bad, dfaults=[dcall])] * 100 + [bad] + TAIL})
-            rep.cov.setdefault("outages_of_one_storage_call_of_100_requests", {})[scen] = 12
+            rep.cov.setdefault("outages_of_one_storage_call_of_100_requests", {})[scen] = 10
     jc = seqfam.consts(Logs={"l1", "l2"}, MaxSize=3, NBranch=2, ForkAt=Sub("Fork_1"))
     all_events = []
     for (store, lv), runs in runs_by.items():
@@ -441,6 +442,9 @@ def fault_pipeline(work, rep, tier, seed, prop, groups=None):
             runs = [r_ for r_ in runs if (lv in groups and "-hold" not in r_["id"]) or ("hold" in groups and "-hold" in r_["id"])]
         if not runs:
             continue
+        ids_ = [r_["id"] for r_ in runs]
+        if len(set(ids_)) != len(ids_):
+            raise Inconclusive("harness error: duplicate run ids in fault group %s/%s: %s" % (store, lv, sorted({i_ for i_ in ids_ if ids_.count(i_) > 1})[:5]))
         rp, tp = work.path("f-%s-%s.jsonl" % (store, lv)), work.path("f-%s-%s.ndjson" % (store, lv))
         write_runs(rp, OPS_PARAMS, runs)
         try:
